@@ -586,7 +586,7 @@ def run(tier: str, only=None) -> core.Result:
                             ("event-stream-chunking", RUN_CHUNK, chunks), ("exit-paths", RUN_EXIT, exits)):
         if only and name not in only:
             continue
-        out = explorer.explore(ref, cfgs)
+        out = explorer.explore(ref, cfgs, fidelity=True)
         sched.absorb(res, name, ref, out, cfgs)
     res.coverage["exhaustive"] = True
     res.coverage["rule"] = (
